@@ -6,7 +6,9 @@ package main
 //
 // step = <where><method><nfail>: where f = submitted at a follower (forwarded to the leader over libp2p
 // RPC), l = submitted at the leader; method P LogPin of a fresh cid, U LogUnpin of the oldest cid still
-// pinned, A AddPeer of a fresh (never started) peer, R RmPeer of the oldest added one; nfail = how many
+// pinned, A AddPeer of a fresh (never started) peer, R RmPeer of the oldest added one, X LogPin of a fresh
+// cid with ORIGINS and Y LogUnpin of the oldest pinned cid carrying a pin with origins (operations that
+// cannot be decoded from the log: commit() must refuse them before asking anybody); nfail = how many
 // of the next forwarded requests the leader's RPC endpoint fails without executing them.
 // obs = <res>~<forwarded requests the leader saw>~<effect: 1 on every live peer after sync, 0 on none, m mixed>
 
@@ -51,6 +53,9 @@ func (w *redirWorld) effect(check func(n *node) (bool, error), want bool, wait t
 		yes, no := 0, 0
 		for _, n := range w.liveNodes() {
 			ok, err := check(n)
+			if err == errUnreadable {
+				ok, err = false, nil
+			}
 			if err != nil {
 				return "", infra("reading a peer: %v", err)
 			}
@@ -73,11 +78,15 @@ func (w *redirWorld) effect(check func(n *node) (bool, error), want bool, wait t
 	}
 }
 
+// errUnreadable: the peer serves no state (FSM inconsistent). That is an observation — the operation is
+// not in effect there, whatever it was — not an infrastructure failure.
+var errUnreadable = fmt.Errorf("peer serves no state")
+
 func hasCid(c cid.Cid) func(n *node) (bool, error) {
 	return func(n *node) (bool, error) {
 		st, err := n.cc.State(context.Background())
 		if err != nil {
-			return false, err
+			return false, errUnreadable
 		}
 		return st.Has(context.Background(), c)
 	}
@@ -101,14 +110,24 @@ func hasPeer(p peer.ID) func(n *node) (bool, error) {
 func not(f func(n *node) (bool, error)) func(n *node) (bool, error) {
 	return func(n *node) (bool, error) {
 		ok, err := f(n)
-		return !ok, err
+		if err != nil {
+			return false, err
+		}
+		return !ok, nil
 	}
+}
+
+// originsPin: a pin no replica could decode from the log.
+func originsPin(c cid.Cid) *api.Pin {
+	p := common.PinOf("0/d/0:0/0/r/-1/0/-/z/-/-/1,2/-/-")
+	p.Cid = c
+	return p
 }
 
 // step executes one step and returns the step actually executed (an unpin / removal without a target
 // becomes a pin / an addition) and its observation.
 func (w *redirWorld) step(tok string, idx int) (string, string, error) {
-	if len(tok) >= 3 && tok[1] == 'U' && len(w.pinned) == 0 {
+	if len(tok) >= 3 && (tok[1] == 'U' || tok[1] == 'Y') && len(w.pinned) == 0 {
 		tok = tok[:1] + "P" + tok[2:]
 	}
 	if len(tok) >= 3 && tok[1] == 'R' && len(w.ghosts) == 0 {
@@ -162,6 +181,25 @@ func (w *redirWorld) step1(tok string, idx int) (string, error) {
 	case 'U':
 		c := w.pinned[0]
 		callErr = w.nodes[at].cc.LogUnpin(ctx, api.PinCid(common.CidN(c)))
+		check = not(hasCid(common.CidN(c)))
+		undo = func(vis string) {
+			if vis == "1" {
+				w.pinned = w.pinned[1:]
+			}
+		}
+	case 'X':
+		c := 20 + w.nextC
+		w.nextC++
+		callErr = w.nodes[at].cc.LogPin(ctx, originsPin(common.CidN(c)))
+		check = hasCid(common.CidN(c))
+		undo = func(vis string) {
+			if vis != "0" {
+				w.pinned = append(w.pinned, c)
+			}
+		}
+	case 'Y':
+		c := w.pinned[0]
+		callErr = w.nodes[at].cc.LogUnpin(ctx, originsPin(common.CidN(c)))
 		check = not(hasCid(common.CidN(c)))
 		undo = func(vis string) {
 			if vis == "1" {
@@ -305,6 +343,15 @@ func genRedirCase(r *common.Rng, k int) (int, []string) {
 			where, nf = "l", r.Intn(2)
 		}
 		steps = append(steps, fmt.Sprintf("%s%c%d", where, m, nf))
+	}
+	// operations commit() must refuse, at a follower and at the leader, each followed by an unpin that must
+	// be acknowledged and visible on every peer (it would not be if the refused one had reached the log)
+	und := []byte{'X', 'Y'}
+	at := r.Intn(len(steps)-1) + 2
+	extra := []string{fmt.Sprintf("%c%c0", "fl"[k%2], und[(k/2)%2]), "fU0"}
+	steps = append(steps[:at], append(extra, steps[at:]...)...)
+	if r.Chance(1, 2) {
+		steps = append(steps, fmt.Sprintf("%c%c%d", "lf"[k%2], und[r.Intn(2)], r.Intn(2)), "lU0")
 	}
 	return retries, steps
 }
